@@ -24,4 +24,4 @@ For each of the two changes (call them A and B) deliver, in /tmp/seeded_out/{pid
   1. patch.diff — produced with `git -C /tmp/wt_{pid} diff` with ONLY that change applied (reset the worktree with `git -C /tmp/wt_{pid} checkout -- .` between A and B so the patches are independent and each applies to a clean checkout).
   2. demo.py — a small standalone program that exits 0 on the unmodified tree and exits non-zero (assertion failure showing the property broken, with a short printed explanation) when the patch is applied. It must take the library from PYTHONPATH (no hard-coded sys.path), be deterministic, and run in a few seconds.
   3. meta.json — {{"property": "{pid}", "summary": "...what the change does...", "needs": "...what specific condition is needed for it to manifest...", "files": [...], "tests_run": "command and pass/fail counts you observed with the patch applied"}}.
-Verify yourself, for each change: (i) demo passes on clean tree, (ii) demo fails with patch, (iii) test-suite counts unchanged with patch. Leave the worktree clean (git checkout -- .) when you finish. Finish with a short report of what you produced. Be efficient: don't explore more of the code base than you need.""")
+Verify yourself, for each change: (i) demo passes on clean tree, (ii) demo fails with patch, (iii) test-suite counts unchanged with patch. Never use `git stash` (the stash is shared by every worktree of the repository and other people work in sibling worktrees at the same time): to get back to a clean tree use `git checkout -- .`, to re-apply your change use `git apply your_patch.diff`. Leave the worktree clean (git checkout -- .) when you finish. Finish with a short report of what you produced. Be efficient: don't explore more of the code base than you need.""")
